@@ -19,6 +19,9 @@ any chunking of the plain body, and `pulled`/`eof` are not predicted (`-`).
 Output: `<res> st=<status|-> pulled=<n|-> eof=<0|1|-> osz=<n|->`.
 `jb` / `ue` = the public futures `JsonBody::<String>::new(..)` / `UrlEncoded::<{a}>::new(..)` used
 directly: `lim=dflt` ⇒ polled without `.limit()`, otherwise `.limit(n)` is applied.
+`via=svc` (Bytes/String/Json/Form only): the request goes through `test::init_service(App…)` +
+`call_service` with a real `h1::Payload`; only success (body length + hash) or the response status
+is observable: `ok:… st=- …` / `err st=<status>` with `pulled=* eof=* osz=*`.
 See `harness/src/props/c12.rs` for the implementation side.
 -/
 namespace ActixModel.Drv.C12
@@ -170,6 +173,9 @@ def runStream (ws : List String) (ex : String) : String :=
         | _ => "-"
       | _, _ => "-"
     else "-"
+  if (kv ws "via").getD "" == "svc" then
+    (if st == "-" then tok else "err") ++ " st=" ++ st ++ " pulled=* eof=* osz=*"
+  else
   tok ++ " st=" ++ st ++ " pulled=" ++ pl ++ " eof=" ++ eof ++ " osz=" ++ osz
 
 /-! multipart -/
